@@ -313,6 +313,13 @@ func (a *defaultAuditor) audit() error {
 			return noErr
 		}
 
+		err = vtx.Validate()
+		if err != nil {
+			a.logger.Errorf("error fetching consistency proof for previous state %d: %v", prevState.TxId, err)
+			withError = true
+			return noErr
+		}
+
 		dualProof := schema.DualProofFromProto(vtx.DualProof)
 		err = schema.FillMissingLinearAdvanceProof(ctx, dualProof, prevState.TxId, state.TxId, a.serviceClient)
 		if err != nil {
